@@ -24,8 +24,8 @@ RULE = ("cases = curated shapes + random-grammar assignments x random formats x 
         "loop iteration on an input that stores an entry; distinct by (assignment, formats, sizes, inputs, capacity)")
 
 PLAN = {
-    "quick": dict(shards=12, fmt=8, inp=2, rnd=1500, draws=2),
-    "thorough": dict(shards=16, fmt=60, inp=3, rnd=24000, draws=4),
+    "quick": dict(shards=12, fmt=8, inp=2, rnd=1500, draws=2, lattice=360),
+    "thorough": dict(shards=16, fmt=60, inp=3, rnd=24000, draws=4, lattice=16000),
 }
 
 
@@ -94,6 +94,21 @@ def shard(rec, tier, index, n_shards):
                     rec.sample({"case": case.describe(),
                                 "evaluate_counters": k.evaluate.counters.as_dict() if k.evaluate.counters else None})
     for case in engine.random_cases(rng, plan["rnd"] // n_shards, plan["draws"]):
+        do_case(rec, case, one_request=(n % 2 == 0))
+        n += 1
+    for case in engine.lattice_cases(rng, plan["lattice"] // n_shards, 3):
+        rec.count("lattice_cases")
+        do_case(rec, case, one_request=(n % 2 == 0))
+        n += 1
+    # every output format of a few simple shapes (engine.output_exhaustive_cases)
+    for case in engine.output_exhaustive_cases(rng, index, n_shards, draws=2 if tier == "quick" else 8):
+        rec.count("every_output_format_cases")
+        do_case(rec, case, one_request=(n % 2 == 0))
+        n += 1
+    # bounded-exhaustive small shapes (engine.small_shapes): a seeded third in quick, all in thorough
+    third = 1 if tier == "thorough" else 3
+    for case in engine.small_shape_cases(rng, index + n_shards * (rec.seed % third), n_shards * third, draws=4, out_modes=("s", "d")):
+        rec.count("small_shape_cases")
         do_case(rec, case, one_request=(n % 2 == 0))
         n += 1
 
